@@ -48,6 +48,12 @@ func (ti *txIndex) add(h []byte, code uint32) {
 	ti.mtx.Unlock()
 }
 
+func (ti *txIndex) remove(h []byte) {
+	ti.mtx.Lock()
+	delete(ti.set, string(h))
+	ti.mtx.Unlock()
+}
+
 func (ti *txIndex) reset() {
 	ti.mtx.Lock()
 	ti.set = map[string]uint32{}
